@@ -5,11 +5,14 @@ CONSTANTS
   TOLS <- TOLS_std
   POOL <- POOL_std
   MAXPK = 4
+  SCALES <- SCALES_unit
   LABS <- LABS_t
 INVARIANT HSym
 INVARIANT CountOK
 INVARIANT CauchyBinet
 INVARIANT StrictBoundary
 INVARIANT ScoreDef
+INVARIANT Covariant
+INVARIANT FixedPoint
 INVARIANT Emit
 CHECK_DEADLOCK FALSE
